@@ -45,6 +45,7 @@ def _make(base):
         self._vcyc = []          # _current_cycle seen at the start of every optimization_step
         self._vlead = []         # _best_agent (position, cost) seen at the start of every optimization_step
         self._vaux = []
+        self._vnerr = []         # (len(_errors), len(_error_diffs)) seen at the start of every optimization_step
         REC.phase = 0
         base._init_population(self)
         self._vsnaps.append(_snap(self._population))
@@ -55,6 +56,7 @@ def _make(base):
         self._vsteps += 1
         REC.phase = self._vsteps
         self._vcyc.append(int(self._current_cycle))
+        self._vnerr.append((len(self._errors), len(self._error_diffs)))
         b = self._best_agent
         self._vlead.append((copy.deepcopy(b.position), b.cost) if b is not None else None)
         base.optimization_step(self)
